@@ -128,6 +128,76 @@ def maxAni {V : Type} (mx : V → V → V) (a1 a2 : Option V) : Option V :=
   | some x, some y => some (mx x y)
   | _, _ => none
 
+/-! ### 1b. the comparison / result classes (`sketchcomparison.py`, `search.py`): plumbing only
+
+Which MinHash-level answer feeds which field, how None propagates, max / average of two optional values,
+which cells of the CSV row are written.  The MinHash-level answers (on the sketches downsampled to the
+comparison scaled) are INPUTS. -/
+
+/-- what a `containment_ani` / `max_containment_ani` call returns, as far as the classes look at it -/
+structure CiAns (V : Type) where
+  ani : Option V
+  lo : Option V
+  hi : Option V
+  px : Bool
+
+/-- … and a `jaccard_ani` call -/
+structure JacAns (V : Type) where
+  ani : Option V
+  px : Bool
+  jx : Bool
+
+/-- `estimate_ani_from_mh1_containment_in_mh2` (and `…mh2…mh1`, `estimate_max_containment_ani`): `.ani` is copied,
+    `potential_false_negative` is set when `p_exceeds_threshold`, the bounds are copied only `if self.estimate_ani_ci` -/
+def cmpDirectional {V : Type} (ci : Bool) (r : CiAns V) : CiAns V :=
+  { ani := r.ani, lo := if ci then r.lo else none, hi := if ci then r.hi else none, px := r.px }
+
+/-- `FracMinHashComparison.avg_containment_ani` (property): both directional estimates, None if either is None,
+    else `(a + b) / 2`; second component = `potential_false_negative` afterwards -/
+def cmpAvgProperty {V : Type} (avg : V → V → V) (r12 r21 : CiAns V) : Option V × Bool :=
+  (avgAni avg r12.ani r21.ani, r12.px || r21.px)
+
+/-- `estimate_all_containment_ani()`: the two directional values, `max_containment_ani = None if either is None else max(..)` -/
+def cmpEstimateAll {V : Type} (mx : V → V → V) (r12 r21 : CiAns V) : Option V × Option V × Option V × Bool :=
+  (r12.ani, r21.ani, maxAni mx r12.ani r21.ani, r12.px || r21.px)
+
+/-- `size_may_be_inaccurate` -/
+def cmpSizeMayBeInaccurate (acc1 acc2 : Bool) : Bool := !acc1 || !acc2
+
+/-- the ANI fields of `PrefetchResult` / `GatherResult` (`estimate_containment_ani` + `handle_ani_ci`) -/
+structure PrefetchAni (V : Type) where
+  query : Option V
+  «match» : Option V
+  average : Option V
+  max : Option V
+  pfn : Bool
+  qlo : Option V
+  qhi : Option V
+  mlo : Option V
+  mhi : Option V
+
+def prefetchAni {V : Type} (ci : Bool) (avg mx : V → V → V) (r12 r21 : CiAns V) : PrefetchAni V :=
+  let d12 := cmpDirectional ci r12
+  let d21 := cmpDirectional ci r21
+  let all := cmpEstimateAll mx r12 r21
+  { query := all.1, «match» := all.2.1, average := (cmpAvgProperty avg r12 r21).1, max := all.2.2.1, pfn := all.2.2.2,
+    qlo := d12.lo, qhi := d12.hi, mlo := d21.lo, mhi := d21.hi }
+
+/-- `BaseResult.to_write`: a column is written iff its value `is not None` (so 0.0 IS written) -/
+def csvPresent {V : Type} (v : Option V) : Bool := v.isSome
+
+inductive SearchKind where
+  | containment | maxContainment | jaccard
+deriving DecidableEq, Repr
+
+/-- `SearchResult.estimate_search_ani`: which estimate becomes `ani` (+ bounds, + `potential_false_negative`) -/
+def searchAni {V : Type} (kind : SearchKind) (ci : Bool) (r12 mc : CiAns V) (j : Except String (JacAns V)) :
+    Except String (CiAns V) :=
+  match kind with
+  | .containment => .ok (cmpDirectional ci r12)
+  | .maxContainment => .ok (cmpDirectional ci mc)
+  | .jaccard => j.map fun r => { ani := r.ani, lo := none, hi := none, px := r.px }
+
 /-! ### 2. closed forms on binary64 -/
 
 /-- `r1_to_q(k, r1) = 1 - (1 - r1) ** k` -/
@@ -282,6 +352,17 @@ def rustPNothingInCommon (ani : Float) (k : Nat) (fScaled n : Float) : Float :=
     everything else goes through `probit` (statrs) and `find_root_brent` (roots), which are not modelled -/
 def rustAniCiExact (c : Float) : Option (Float × Float) :=
   if c == 0.0 then some (0.0, 0.0) else if c == 1.0 then some (1.0, 1.0) else none
+
+/-- the ANI point fields of the native `GatherResult` (`calculate_gather_stats`, src/core/src/index/mod.rs):
+    `f_orig_query = |match ∩ orig_query| / |orig_query|`, `f_match_orig = |match ∩ orig_query| / |match|` (no bias correction,
+    no size-accuracy test), `query/match_containment_ani = ani_from_containment(f, ksize)`, their mean and `f64::max`.
+    Returns (query, match, average, max, f_orig_query, f_match_orig). -/
+def rustGatherAni (isect lenQuery lenMatch k : Nat) : Float × Float × Float × Float × Float × Float :=
+  let fq := isect.toFloat / lenQuery.toFloat
+  let fm := isect.toFloat / lenMatch.toFloat
+  let q := rustAniFromContainment fq k.toFloat
+  let m := rustAniFromContainment fm k.toFloat
+  (q, m, (q + m) / 2.0, if q < m then m else q, fq, fm)
 
 /-! ### `MinHash.size_is_accurate` / `set_size_exact_prob`: the decision structure
 
